@@ -57,6 +57,12 @@ Proof.
   eapply T_bind; [apply T_compile_other, Hd | intros _; exact IH].
 Qed.
 
+(* process_card keeps the scope discipline (CompilerLocalsEmpty.process_card_T, spelled out) *)
+Theorem card_keeps_scopes c d ds s s' :
+  (1 <= d)%Z -> scopes_ok s -> cs_depth s = d :: ds -> process_card c s = ROk tt s' ->
+  scopes_ok s' /\ cs_depth s' = d :: ds.
+Proof. intros Hd Hs E H. pose proof (process_card_T c d ds Hd s Hs E) as HT. rewrite H in HT. exact HT. Qed.
+
 (* the state between two functions *)
 Definition fn_clean (s : cstate) : Prop := cs_locals s = [[]] /\ cs_depth s = [0%Z].
 Lemma fn_clean_ok s : fn_clean s -> scopes_ok s.
